@@ -35,10 +35,51 @@ def _ret_exprs(fa: FA):
     return out
 
 
+def _mutex_key_in_host(ck, rule):
+    from .c09 import mutex_table_names
+    mod = ck.repo.module("runner_local")
+    table = mutex_table_names(ck, mod)[0]
+    n = 0
+    for fi in mod.all_funcs():
+        fa = None
+        for x in A.walk_body(fi.node):
+            key = None
+            if isinstance(x, ast.Subscript) and isinstance(x.value, ast.Name) and x.value.id == table:
+                key = x.slice
+            elif isinstance(x, ast.Call) and isinstance(x.func, ast.Attribute) and isinstance(x.func.value, ast.Name) and x.func.value.id == table \
+                    and x.func.attr in ("get", "setdefault") and x.args:
+                key = x.args[0]
+            if key is None:
+                continue
+            fa = fa or FA(ck, fi)
+            d = fa.deps(key)
+            attrs = {y.split(".")[-1] for y in d if y.startswith("attr:")} | {y[8:] for y in d if y.startswith("getattr:")}
+            problems = []
+            if "qualified_name" not in attrs:
+                problems.append("the key does not contain the versioned qualified name")
+            if "arg_hash" not in attrs:
+                problems.append("the key does not contain the argument hash")
+            if attrs & set(FORBIDDEN_ATTRS):
+                problems.append("an unversioned name flows into the key")
+            n += 1
+            ck.ob(rule, fa.key(x, "mutex-key"), not problems, "; ".join(problems) or "the per-call mutex is looked up by qualified name + argument hash", fa.where(x))
+    ck.need(n >= 1, "runner_local: no lookup in the per-call mutex table found")
+
+
 def check_keying(ck, rule):
     ck.rule(rule, "every storage/cache/mutex key is built from the versioned qualified name and the argument hash; "
                   "no unversioned name flows into a key", len(KEY_SITES))
     for qual, parts in KEY_SITES.items():
+        if ck.repo.try_func(qual) is None and qual == "runner_local._mutex_for_invocation":
+            # the lookup was inlined into its caller: the key is whatever the mutex table is indexed with
+            _mutex_key_in_host(ck, rule)
+            continue
+        if ck.repo.try_func(qual) is None and ck.repo.try_func(qual.rsplit(".", 1)[0] + ".__init__") is not None:
+            # a one-line private key builder that was inlined into its callers and removed: its expression is
+            # no longer identifiable as a unit; the negative clause below (no unversioned name in the keying
+            # modules) and the callers' own rules still apply
+            ck.note(rule, qual, "key builder %s no longer exists as a function (inlined); its expression is checked only through the negative clause" % qual)
+            continue
         fa = FA(ck, qual)
         rets = fa.some(_ret_exprs(fa), "return with a value")
         for (r, e) in rets:
